@@ -4,6 +4,8 @@ import (
 	crand "crypto/rand"
 	"fmt"
 	"io"
+	"os"
+	"runtime"
 	"strings"
 	"sync"
 	"testing"
@@ -84,6 +86,15 @@ func (r *runState) violate(class, key, format string, args ...interface{}) bool 
 	if r.mode != wireTypeCompress {
 		key += "/mode=" + modeName(r.mode)
 	}
+	if r.c.Violate(class, key, format, args...) {
+		r.stop = true
+		return true
+	}
+	return false
+}
+
+// violateAnyMode is violate for findings that do not depend on the frame mode.
+func (r *runState) violateAnyMode(class, key, format string, args ...interface{}) bool {
 	if r.c.Violate(class, key, format, args...) {
 		r.stop = true
 		return true
@@ -199,6 +210,17 @@ func Run(c *kernel.Ctx) {
 		if strings.Contains(leak, "deadlock") {
 			c.Probe("bubble_goroutines_left_blocked")
 			r.sample["leak"] = leak
+			if dbg := os.Getenv("VERIF_C18_DEBUG"); dbg != "" {
+				buf := make([]byte, 1<<20)
+				n := runtime.Stack(buf, true)
+				var keep []string
+				for _, g := range strings.Split(string(buf[:n]), "\n\n") {
+					if strings.Contains(g, "synctest bubble") {
+						keep = append(keep, g)
+					}
+				}
+				os.WriteFile(fmt.Sprintf("%s/leak-%d.txt", dbg, c.Tape.Seed()), []byte(fmt.Sprintf("%v\n\n%s", r.sample, strings.Join(keep, "\n\n"))), 0644)
+			}
 		} else {
 			c.HarnessTrouble("synctest.Test panicked: %s", leak)
 		}
